@@ -16,6 +16,17 @@ file give the tables and (table, non-virtual column) pairs that disappear in tha
 the model the files were generated from). Each of them must be covered by exactly one DS102 / DS103
 diagnostic whose Pos lies inside the causing statement (rebuild: inside its CREATE..RENAME group); nothing
 else may carry a DS1xx diagnostic; the exit status must be non-zero iff a DS1xx diagnostic was reported.
+For hand-written rebuilds that deviate from the canonical CREATE new_t / INSERT / DROP t / RENAME sequence
+(other temporary name, no INSERT, an extra statement) any single DS102/DS103 inside the group is accepted,
+which is all the property statement asks for.
+
+Violation keys are class level: missing|<code>|<how>|<file class>|<writer>, spurious|<code>|..., pos|...,
+duplicate|..., exit|.... Four keys carry a circumstance instead of the file class; they single out the one
+root cause documented in notes/C18-findings.md (an unrelated table named new_<t> in the same file):
+  missing|DS102|file-creates-new_<t>-and-drops-<t>
+  missing|DS103|file-creates-new_<t>-with-column-<c>-and-drops-<t>.<c>
+  spurious|DS102|temporary-table-named-new_*
+  spurious|DS103|column-of-table-named-new_*-created-in-file
 """
 import json
 import os
